@@ -334,7 +334,7 @@ def shrink_case(case, still_fails, budget=400, seconds=3.0):
 _SHRUNK = [0]
 
 
-def with_shrinking(mod_name, raw_oracle, max_shrinks=6):
+def with_shrinking(mod_name, raw_oracle, max_shrinks=6, ok=None):
     """wrap an oracle: the first few failures of a run are re-run on smaller variants of the case;
     the smallest variant that still fails in the same way is stored as the failure's case
     (the replay then shows a minimal input; the original is kept as `original_case`)"""
@@ -350,6 +350,8 @@ def with_shrinking(mod_name, raw_oracle, max_shrinks=6):
 
         def fails(cand):
             cand = lib.normalize(cand)
+            if ok is not None and not ok(cand):
+                return False  # outside the domain the oracle is stated for
             o = lib.normalize(lib.safe_impl(mod, cand))
             return any(f.get("what") == what for f in (raw_oracle(ctx, kind, cand, o) or []))
 
